@@ -1094,7 +1094,9 @@ impl<'a, 'ast> Visit<'ast> for Rewriter<'a> {
         if self.cfg.rrangeiter {
             if let Expr::Paren(p) = &*m.receiver {
                 if let Expr::Range(rg) = &*p.expr {
-                    if let (Some(a), Some(b), RangeLimits::HalfOpen(_)) = (&rg.start, &rg.end, &rg.limits) {
+                    if let (Some(a), Some(b)) = (&rg.start, &rg.end) {
+                        // `(A..=B).m()` -> `vx_range_incl(A, B).m()`
+                        let ctor = if matches!(rg.limits, RangeLimits::Closed(_)) { "vx_range_incl(" } else { "vx_range(" };
                         self.visit_expr(a);
                         self.visit_expr(b);
                         for x in m.args.iter() {
@@ -1106,7 +1108,7 @@ impl<'a, 'ast> Visit<'ast> for Rewriter<'a> {
                         self.edits.replace(
                             whole,
                             vec![
-                                Piece::Lit("vx_range(".into()),
+                                Piece::Lit(ctor.into()),
                                 Piece::Src(ar.0, ar.1),
                                 Piece::Lit(", ".into()),
                                 Piece::Src(br.0, br.1),
